@@ -16,17 +16,19 @@ from .inline import canon_calls, inline_pure_exprs, inlined_function
 _CACHE: Dict[tuple, Tuple[ast.FunctionDef, GuardWalk, list]] = {}
 
 
-def view(index: RepoIndex, func: Func, cross: Tuple[str, ...] = ()
-         ) -> Tuple[ast.FunctionDef, GuardWalk, list]:
+def view(index: RepoIndex, func: Func, cross: Tuple[str, ...] = (),
+         keep: Tuple[str, ...] = ()) -> Tuple[ast.FunctionDef, GuardWalk, list]:
     """(normalised node, its guard walk, names of the helpers inlined); `cross` names
-    imported repository functions to inline as well"""
-    key = (id(index), id(func.node), tuple(cross))
+    imported repository functions to inline as well, `keep` names helpers a rule wants to
+    see as calls"""
+    key = (id(index), id(func.node), tuple(cross), tuple(keep))
     hit = _CACHE.get(key)
     if hit is not None:
         return hit
-    node, inlined = inlined_function(index, func, methods=True, cross=set(cross))
+    node, inlined = inlined_function(index, func, exclude=set(keep), methods=True,
+                                     cross=set(cross))
     node = canon_calls(index, func.module, node)
-    ex = inline_pure_exprs(index, func.module, func.cls, node)
+    ex = inline_pure_exprs(index, func.module, func.cls, node, keep=tuple(keep))
     if ast.dump(ex) != ast.dump(node):
         node = ex
     out = (node, walk_function(node), inlined)
